@@ -191,6 +191,33 @@ func runC09(c *Ctx) error {
 		{append(append(append([]byte(nil), make([]byte, 256)...), ones...), rng.Bytes(300)...), nil},
 		{rng.Bytes(100), nil}, {nil, nil}, {append(append([]byte(nil), small...), rng.Bytes(100)...), nil},
 	}
+	// runs of k consecutive rejected draws (a degraded source: zeros, tiny values, exactly the lower bound), then an acceptable one
+	for k := 1; k <= 9; k++ {
+		var d []byte
+		for j := 0; j < k; j++ {
+			switch (j + k) % 3 {
+			case 0:
+				d = append(d, make([]byte, 256)...)
+			case 1:
+				d = append(d, small...)
+			default:
+				d = append(d, append(make([]byte, 250), rng.Bytes(6)...)...)
+			}
+		}
+		tail := rng.Bytes(256)
+		if k%2 == 0 {
+			tail = just
+		}
+		scripts = append(scripts, struct {
+			data  []byte
+			fails []int
+		}{append(d, tail...), nil})
+		// ... and a source that never recovers: every window rejected until it is exhausted -> an error, never a key
+		scripts = append(scripts, struct {
+			data  []byte
+			fails []int
+		}{append([]byte(nil), d...), nil})
+	}
 	for p := 0; p < 256; p += c.N(17, 1) {
 		scripts = append(scripts, struct {
 			data  []byte
